@@ -176,7 +176,24 @@ def c01(ck):
                 sid = "one%d" % len(single_ids)
                 single_ids[key] = sid
                 single_lines.append(feed_line(sid, svc, [enc(r)]))
+    # the same sequences with a writer that takes only a few bytes per write() call (legal for any io::Write, and what
+    # a socket does under pressure): the reply bytes must be the same
+    short_lines, short_meta = [], {}
+    whole_ids = [c for c in meta if meta[c][2] == "whole"]
+    for j, cid in enumerate(whole_ids[:(150 if quick else 1500)]):
+        k = (1, 7, 48)[j % 3]
+        sid = "sw%d" % j
+        short_meta[sid] = (cid, k)
+        short_lines.append("%s feedw %d %s | %s" % (sid, k, svc.tokens(), hx(stream_of(meta[cid][1]))))
+    short = run_lines(harness_bin("h_service"), short_lines, shards=8)
     impl, model = run_both(ck, lines + single_lines, model_ok, shards=12)
+    for sid, (cid, k) in short_meta.items():
+        ck.case("shortwrite|%s|%d" % (meta[cid][0], k))
+        ck.count("short_writer")
+        if "out=" not in short[sid] or "out=" not in impl[cid] or not same_out(out_of(short[sid]), out_of(impl[cid])):
+            ck.failures.append({"what": "with a writer that accepts at most %d bytes per write() call the reply stream is not the one written to an unlimited writer "
+                                        "(replies truncated / glued together)" % k, "sequence": ["%s/%s" % kf for kf in meta[cid][0]],
+                                "short_writer": short[sid][:300], "unlimited": impl[cid][:300]})
     ck.rule = ("request sequences over %d request kinds x flags {-,more,oneway}: every single request, every pair over the %d core kinds, "
                "every sequence up to length %d over 8 kinds, random sequences to length 40; each fed whole and at a random pipelining depth "
                "through VarlinkService::handle with the documented tail protocol, plus a sample through varlink::listen on a unix socket; "
@@ -716,6 +733,104 @@ def c13_reference_multiplex(ck):
                 if canon_reply_stream(got) != canon_reply_stream(want):
                     ck.failures.append({"what": "examples/ping in multiplex mode: %s received bytes that do not follow from its own traffic" % who,
                                         "neighbour": variant, "received": got.decode("utf-8", "replace")[:300], "expected": want.decode()})
+    finally:
+        srv.kill()
+        srv.wait()
+        try:
+            os.unlink(path)
+        except OSError:
+            pass
+
+
+def c13_reference_service(ck):
+    """examples/example is the repository's own threaded service (varlink::listen, one shared handler object with a lock-protected
+    counter): a peer that pipelines calls and never reads its replies must not keep its neighbours from being served."""
+    import socket
+    import subprocess
+    import time
+    tgt = os.path.join(BUILD, "target-repo")
+    with Lock("cargo-repo"):
+        rc, log = sh(["cargo", "build", "--offline", "--quiet", "-p", "example"], cwd=REPO, env=dict(ENV, CARGO_TARGET_DIR=tgt), timeout=1800)
+    binp = os.path.join(tgt, "debug", "example")
+    if rc != 0 or not os.path.exists(binp):
+        ck.tie_broken.append("examples/example does not build: " + log[-300:])
+        return
+    path = os.path.join(BUILD, "tmp", "example13-%d.sock" % os.getpid())
+    os.makedirs(os.path.dirname(path), exist_ok=True)
+    try:
+        os.unlink(path)
+    except OSError:
+        pass
+    srv = subprocess.Popen([binp, "--varlink=unix:" + path], stdout=subprocess.DEVNULL, stderr=subprocess.DEVNULL)
+
+    def rq(method, params=None):
+        d = {"method": method}
+        if params is not None:
+            d["parameters"] = params
+        return json.dumps(d).encode() + b"\0"
+
+    def conn():
+        c = socket.socket(socket.AF_UNIX)
+        c.connect(path)
+        return c
+
+    def read_n(c, n, wait=8.0):
+        c.settimeout(0.2)
+        buf = b""
+        t0 = time.time()
+        while buf.count(b"\0") < n and time.time() - t0 < wait:
+            try:
+                b = c.recv(65536)
+                if not b:
+                    break
+                buf += b
+            except socket.timeout:
+                pass
+            except OSError:
+                break
+        return buf
+    try:
+        t0 = time.time()
+        while not os.path.exists(path) and time.time() - t0 < 10:
+            time.sleep(0.02)
+        for variant, flood in (("pipelines Info calls and never reads", rq("org.example.network.Info", {"ifindex": 1})),
+                               ("pipelines List calls and never reads", rq("org.example.network.List")),
+                               ("pipelines GetInfo calls and never reads", rq("org.varlink.service.GetInfo"))):
+            a = conn()
+            a.setblocking(False)
+            sent = 0
+            t1 = time.time()
+            idle = 0
+            # write until the server stops taking bytes (its reply writes to us are blocked and so is its reading)
+            while time.time() - t1 < 6 and idle < 15 and sent < 64 * 1024 * 1024:
+                try:
+                    sent += a.send(flood * 200)
+                    idle = 0
+                except BlockingIOError:
+                    idle += 1
+                    time.sleep(0.02)
+                except OSError:
+                    break
+            b = conn()
+            b.sendall(rq("org.example.network.Info", {"ifindex": 2}) + rq("org.example.network.List") + rq("org.example.network.Info", {"ifindex": 7}))
+            gotb = read_n(b, 3)
+            ck.case("example13|" + variant)
+            ck.count("reference_service_neighbours")
+            try:
+                reps = canon_reply_stream(gotb)
+            except Exception:
+                reps = None
+            ok = (reps is not None and len(reps) == 3 and reps[0].get("parameters", {}).get("info", {}).get("ifindex") == 2
+                  and "netdevs" in (reps[1].get("parameters") or {}) and reps[2].get("error") == "org.example.network.UnknownNetworkIfIndex")
+            if not ok:
+                ck.failures.append({"what": "examples/example (varlink::listen, shared handler): a connection was not served its own three replies within 8 s while a neighbour "
+                                            "had stopped reading its replies (a slow peer must not block another connection)",
+                                    "neighbour": variant, "neighbour_bytes_sent": sent, "received": gotb.decode("utf-8", "replace")[:400]})
+            for x in (a, b):
+                try:
+                    x.close()
+                except OSError:
+                    pass
     finally:
         srv.kill()
         srv.wait()
